@@ -269,6 +269,23 @@ def gen():
     if not re.search(r"if\s+user\s*\{\s*self\.header\.version\s*=\s*HeaderVersion::UserDict\(UserDictVersion::Version3\)\s*\}\s*else\s*\{\s*self\.header\.version\s*=\s*HeaderVersion::SystemDict\(SystemDictVersion::Version2\)", su):
         hbad.append("set_user no longer selects UserDict V3 / SystemDict V2")
     out.append("Definition header_unrecognised : list string := [ %s ].\n" % "; ".join('"%s"' % x for x in hbad))
+    # ---- the front ends that wrap compile in a BufWriter (command-line tool, Python functions): a BufWriter flushed by Drop
+    # ignores I/O errors, so every function that compiles into one has to flush it and look at the result
+    unflushed = []
+    for rel in ("sudachi-cli/src/build.rs", "python/src/build.rs"):
+        ft = F.strip_comments(F.src(rel))
+        for mfn in re.finditer(r"\bfn\s+([a-z_0-9]+)", ft):
+            try:
+                body = F.fn_body(ft[mfn.start():], mfn.group(1), rel)
+            except F.FactError:
+                continue
+            for mc in re.finditer(r"\.compile\(&mut\s+([a-z_]+)\)", body):
+                w = mc.group(1)
+                if not re.search(r"\bBufWriter\b", body):
+                    continue
+                if not re.search(r"\b%s\s*\.flush\(\)\s*(?:\.expect\(|\.unwrap\(\)|\?|\))" % re.escape(w), body[mc.end():]):
+                    unflushed.append("%s:%s compiles into the BufWriter `%s` and does not flush it with a checked result" % (rel, mfn.group(1), w))
+    out.append("(* functions of the front ends that compile into a BufWriter without a checked flush afterwards *)\nDefinition front_end_unflushed_writers : list string := [ %s ].\n" % "; ".join('"%s"' % x for x in sorted(set(unflushed))))
     # ---- index.rs: a lexicon without indexed entries
     rel = BUILD + "index.rs"
     t = no_tests(F.strip_comments(F.src(rel)))
